@@ -1,9 +1,106 @@
 import HedVerif.Driver.Util
+import HedVerif.Model.SidecarV
 open Lean
 namespace HedVerif.Driver.C08
-open HedVerif HedVerif.Driver
+open HedVerif HedVerif.Driver HedVerif.SidecarV
 
-/-- requests `{"op":"c08.<name>", ...}` of property C08 (stub: none yet) -/
-def handle (_op : String) (_j : Json) : Option (Except String Json) := none
+/-- tagged encoding of a JSON value (keeps object order): scalars as themselves, `{"a":[..]}` list, `{"o":[[k,v],..]}` object -/
+partial def decode (j : Lean.Json) : Except String SidecarV.Json :=
+  match j with
+  | .null => pure .null
+  | .bool b => pure (.bool b)
+  | .str s => pure (.str s.toList)
+  | .num _ => match j.getInt? with
+    | .ok n => pure (.num n)
+    | .error _ => .error "only integer numbers"
+  | _ =>
+    match j.getObjVal? "a" with
+    | .ok (Lean.Json.arr xs) => do pure (.arr (← xs.toList.mapM decode))
+    | _ => match j.getObjVal? "o" with
+      | .ok (Lean.Json.arr kvs) => do
+        let ps ← kvs.toList.mapM fun kv => match kv with
+          | Lean.Json.arr #[Lean.Json.str k, v] => do pure (k.toList, ← decode v)
+          | _ => .error "object entries must be [key, value]"
+        if (ps.map (·.1)).eraseDups.length != ps.length then .error "duplicate keys" else pure (.obj ps)
+      | _ => .error "bad encoded value"
+
+def optStr : Lean.Json → Option SidecarV.Str
+  | Lean.Json.str s => some s.toList
+  | _ => none
+
+def codesOf (j : Lean.Json) : Except String (List (SidecarV.Str × Nat)) := do
+  (← asArr j).mapM fun c => match c with
+    | Lean.Json.arr #[Lean.Json.str code, sev] => do pure (code.toList, ← asNat sev)
+    | _ => .error "issue must be [code, severity]"
+
+def tableOf (j : Lean.Json) (k : String) : Except String (List (SidecarV.Str × List (SidecarV.Str × Nat))) := do
+  (← getArr j k).mapM fun e => match e with
+    | Lean.Json.arr #[Lean.Json.str s, cs] => do pure (s.toList, ← codesOf cs)
+    | _ => .error s!"{k} entries must be [string, issues]"
+
+def miss (what : String) : List (SidecarV.Str × Nat) := [(("ORACLE-MISS-" ++ what).toList, 1)]
+
+def oracleOf (j : Lean.Json) : Except String Oracle := do
+  let basic ← tableOf j "basic"
+  let full ← tableOf j "full"
+  let defs ← (← getArr j "defs").mapM fun e => match e with
+    | Lean.Json.arr #[Lean.Json.str s, n] => do pure (s.toList, ← asNat n)
+    | _ => .error "defs entries must be [string, n]"
+  let repna ← (← getArr j "repna").mapM fun e => match e with
+    | Lean.Json.arr #[Lean.Json.str t, Lean.Json.str r, Lean.Json.str res] => pure ((t.toList, r.toList), res.toList)
+    | _ => .error "repna entries must be [text, ref, result]"
+  let di ← (← getArr j "defissues").mapM fun e => match e with
+    | Lean.Json.arr #[Lean.Json.str k, Lean.Json.str c, sev, col, key] => do
+        pure (⟨k.toList, c.toList, ← asNat sev, optStr col, optStr key⟩ : Issue)
+    | _ => .error "defissues entries must be [kind, code, sev, col, key]"
+  pure { basic := fun s => ((basic.find? (·.1 == s)).map (·.2)).getD (miss "BASIC")
+         full := fun s => ((full.find? (·.1 == s)).map (·.2)).getD (miss "FULL")
+         defCount := fun s => ((defs.find? (·.1 == s)).map (·.2)).getD 0
+         repNa := fun t r => ((repna.find? (·.1 == (t, r))).map (·.2)).getD ("ORACLE-MISS-REPNA".toList)
+         defIssues := di }
+
+def issueJson (i : Issue) : Lean.Json :=
+  jarr [jstr i.kind, jstr i.code, jnat i.sev, jopt jstr i.col, jopt jstr i.key]
+
+def exnName : Exn → String
+  | .attributeError => "AttributeError" | .typeError => "TypeError" | .valueError => "ValueError"
+  | .keyError => "KeyError" | .unmodelled => "unmodelled"
+
+def ctypeJson : Option CType → Lean.Json
+  | none => Lean.Json.null
+  | some .ignore => "ignore" | some .categorical => "categorical" | some .value => "value"
+
+/-- was the early exit taken (structure or reference errors)? evidence only -/
+def early (g : Guards) (doc : SidecarV.Json) : Bool :=
+  match load g doc with
+  | .ok (li, src) => match structureIssues li src, columnData src with
+    | .ok s, .ok cols => match refIssues g cols with
+      | .ok r => anyError (s ++ r)
+      | _ => true
+    | _, _ => true
+  | _ => true
+
+def handle (op : String) (j : Lean.Json) : Option (Except String Lean.Json) :=
+  match op with
+  | "c08.validate" => some do
+      let doc ← decode (← getVal j "doc")
+      let g := if getBoolD j "fixed" true then Guards.fixed else Guards.unfixed
+      let O ← oracleOf j
+      match validate g O doc with
+      | .ok is => pure <| jobj [("ok", jarr (is.map issueJson)), ("early", jbool (early g doc))]
+      | .error e => pure <| jobj [("raise", Lean.Json.str (exnName e))]
+  | "c08.strings" => some do
+      let s ← getStr j "s"
+      let old ← getStr j "old"
+      let new ← getStr j "new"
+      pure <| jobj [("braces", jarr ((braces s).map jnat)), ("refs", jarr ((findRefs s).map jstr)),
+                    ("replaced", jstr (replaceAll s old new))]
+  | "c08.kind" => some do
+      let e ← decode (← getVal j "entry")
+      let f := fun b => match detect b e with
+        | .ok t => ctypeJson t
+        | .error x => Lean.Json.str (exnName x)
+      pure <| jobj [("basic", f true), ("raw", f false)]
+  | _ => none
 
 end HedVerif.Driver.C08
